@@ -174,7 +174,11 @@ impl Binder {
             .get_table_id_by_name(schema_name, table_name)
             .ok_or_else(|| ErrorKind::InvalidTable(table_name.into()))?;
 
-        let table = self.catalog.get_table(&ref_id).unwrap();
+        // (the table may have been dropped by another session since the lookup above)
+        let table = self
+            .catalog
+            .get_table(&ref_id)
+            .ok_or_else(|| ErrorKind::InvalidTable(table_name.into()))?;
         let table_occurence = {
             let count = self.table_occurrences.entry(ref_id).or_default();
             std::mem::replace(count, *count + 1)
@@ -222,7 +226,10 @@ impl Binder {
             .get_table_id_by_name(schema_name, table_name)
             .ok_or_else(|| ErrorKind::InvalidTable(table_name.into()).with_spanned(&name))?;
 
-        let table = self.catalog.get_table(&table_ref_id).unwrap();
+        let table = self
+            .catalog
+            .get_table(&table_ref_id)
+            .ok_or_else(|| ErrorKind::InvalidTable(table_name.into()).with_spanned(&name))?;
 
         let column_ids = if columns.is_empty() {
             table.all_columns().keys().cloned().collect_vec()
@@ -260,7 +267,10 @@ impl Binder {
             .catalog
             .get_table_id_by_name(schema_name, table_name)
             .ok_or_else(|| ErrorKind::InvalidTable(table_name.into()).with_spanned(&name))?;
-        let table = self.catalog.get_table(&table_ref_id).unwrap();
+        let table = self
+            .catalog
+            .get_table(&table_ref_id)
+            .ok_or_else(|| ErrorKind::InvalidTable(table_name.into()).with_spanned(&name))?;
         let id = self.egraph.add(Node::Table(table_ref_id));
         Ok((
             id,
